@@ -114,6 +114,10 @@ func (k Keeper) PlaceBid(ctx context.Context, msg *types.MsgPlaceBid) (types.Bid
 		Coin:      msg.Coin,
 		IsMatched: false,
 	}
+	// Records are matched with each other by this string (allow-list caps, allocations, refunds),
+	// so store the canonical form of the address: the same account can also be written in another
+	// valid bech32 form (all upper case).
+	bid.Bidder = bidder.String()
 
 	payingCoinDenom := auction.GetPayingCoinDenom()
 
